@@ -76,7 +76,7 @@ func cmdIdburst(args []string) {
 	seed := fs.Int("seed", 1, "seed")
 	fs.Parse(args)
 	var g models.SequentialIDGenerator
-	owner := make([]atomic.Int32, 1<<20)
+	owner := make([]atomic.Int32, *gor**iters+2) // an id is at most the number of allocations
 	var dup atomic.Int64
 	var wg gosync.WaitGroup
 	for w := 0; w < *gor; w++ {
